@@ -244,6 +244,35 @@ func isDefineStmt(stmt ast.Stmt) bool {
 	return ok && assign.Tok == token.DEFINE
 }
 
+// doc comments of declarations (and of the package clause)
+func docComments(f *ast.File) (xs []*ast.CommentGroup) {
+	add := func(g *ast.CommentGroup) {
+		if g != nil && len(g.List) > 0 {
+			xs = append(xs, g)
+		}
+	}
+	add(f.Doc)
+	ast.Inspect(f, func(n ast.Node) bool {
+		switch n := n.(type) {
+		case *ast.GenDecl:
+			add(n.Doc)
+		case *ast.FuncDecl:
+			add(n.Doc)
+		case *ast.TypeSpec:
+			add(n.Doc)
+			add(n.Comment)
+		case *ast.ValueSpec:
+			add(n.Doc)
+			add(n.Comment)
+		case *ast.Field:
+			add(n.Doc)
+			add(n.Comment)
+		}
+		return true
+	})
+	return
+}
+
 func hasDeclStmt(stmts []ast.Stmt) bool {
 	for _, stmt := range stmts {
 		if isDefineStmt(stmt) || instanceof[*ast.DeclStmt](stmt) {
